@@ -423,6 +423,9 @@ def cmd_run(prop, tier):
                 continue
             rp = save_replay(prop, obj=cf)
             violations.append((rp, cf["violations"][0]["message"]))
+        elif "VF-STALL:" in out:
+            i = out.index("VF-STALL:")
+            infra.append("%s shard %d: a synctest bubble stalled in real time (inconclusive)\n%s" % (test, s, out[i:i + 2500]))
         elif rc == -9 or "panic: test timed out" in out:
             infra.append("%s shard %d: timed out (budget hit => inconclusive)\n%s" % (test, s, out[-1500:]))
         else:
